@@ -15,7 +15,7 @@
 (*     view of the container.  Invariant SameContents: for addressable        *)
 (*     containers the two views of the strict model are the same contents.    *)
 EXTENDS Json, SequencesExt, Randomization
-CONSTANTS OpenDev, Tier, Mode, MaxLen
+CONSTANTS OpenDev, Tier, Mode, MaxLen, Wide
 VARIABLES blk, cs, st, lt, hist, cont
 
 S == INSTANCE Bridge WITH Dev <- {}
@@ -151,20 +151,21 @@ None == [fam |-> "none"]
 
 -----------------------------------------------------------------------------
 (* Container modes                                                           *)
-ElemKinds == IF Mode = "map" THEN {"int8", "float32", "string", "iface"} ELSE {"int8", "uint8", "float32", "string", "iface"}
+ElemKinds == IF Mode = "map" THEN {"int8", "float32", "string", "iface"}
+             ELSE {"int8", "uint8", "float32", "string", "iface"} \cup (IF Wide /\ MaxLen = 2 THEN {"int64", "uint64"} ELSE {})
 GOf(k, i) ==              \* the i-th sample element of kind k (type-directed form)
     CASE k \in S!IntKinds -> S!GInt(k, I(i))
       [] k \in S!FltKinds -> S!GFlt(k, IF i = 1 THEN OneHalf ELSE I(i))
       [] k = "string" -> S!GStr(IF i = 1 THEN K_a ELSE IF i = 2 THEN U_smile ELSE <<>>)
       [] k = "iface" -> S!GX(IF i = 1 THEN [x |-> "num", n |-> I(1)] ELSE IF i = 2 THEN [x |-> "str", s |-> K_a] ELSE [x |-> "nil"])
-NumW == IF Tier = "thorough"
+NumW == IF Wide
         THEN {IntV(5), IntV(127), IntV(128), IntV(255), IntV(256), IntV(-1), IntV(-129), NumV(OneHalf), NumV(S!NumNeg(OneHalf)), NumV(Tenth), NumV(S!NaN), NumV(S!PInf),
               NumV(S!NZero), NumV(ZAdd(24, 1)), NumV(S!DecToNum(FALSE, <<1>>, 39)), NumV(Canon(FALSE, <<1>>, -150)), NumV(P2(63)), NumV(P2(64)),
               StrV(<<55>>), StrV(<<120>>), StrV(<<>>), S!BoolV(TRUE), S!Null, S!Undef, O(<<>>, <<>>), A(<<IntV(3)>>)}
         ELSE {IntV(5), IntV(128), IntV(256), IntV(-1), NumV(OneHalf), NumV(S!NumNeg(OneHalf)), NumV(Tenth), NumV(S!NaN), NumV(ZAdd(24, 1)),
               StrV(<<55>>), S!BoolV(TRUE), S!Undef}
 StrW == {StrV(<<115>>), StrV(U_smile), IntV(5), NumV(OneHalf), NumV(S!NumNeg(OneHalf)), NumV(S!DecToNum(FALSE, <<1>>, 21)), NumV(S!NaN), S!BoolV(TRUE), S!Null, S!Undef}
-        \cup (IF Tier = "thorough" THEN {A(<<IntV(3), IntV(4)>>), O(<<>>, <<>>), NumV(S!DecToNum(FALSE, <<1>>, -7))} ELSE {})
+        \cup (IF Wide THEN {A(<<IntV(3), IntV(4)>>), O(<<>>, <<>>), NumV(S!DecToNum(FALSE, <<1>>, -7))} ELSE {})
 IfaceW == {IntV(5), NumV(OneHalf), StrV(<<115>>), S!BoolV(TRUE), S!Null, S!Undef, A(<<IntV(1), StrV(K_a)>>), O(<<K_a>>, <<IntV(1)>>)}
 WOf(k) == IF k = "string" THEN StrW ELSE IF k = "iface" THEN IfaceW ELSE NumW
 WithJs(op) == [op EXCEPT !.js = JsParts(op.v)]
